@@ -12,8 +12,8 @@ def LayN (T : Array PNode) : DNode → Nat → Nat → Prop
   | .create i ch, idx, base =>
     T[idx]!.info.c.kind = i.c.kind ∧ idx + T[idx]!.a = base ∧ idx < base ∧ LayN T ch base (base + 1)
   | .group i ds, idx, base =>
-    T[idx]!.info.c.kind = i.c.kind ∧ idx + T[idx]!.a = base ∧ idx + T[idx]!.b = base + ds.length ∧ idx < base ∧
-      LayL T ds base (base + ds.length)
+    T[idx]!.info.c.kind = i.c.kind ∧ T[idx]!.b = T[idx]!.a + ds.length ∧
+      (0 < ds.length → idx + T[idx]!.a = base ∧ idx < base) ∧ LayL T ds base (base + ds.length)
 /-- the nodes of `ds` sit at slots `k, k+1, …`, their proper descendants from `base` on -/
 def LayL (T : Array PNode) : DList → Nat → Nat → Prop
   | .nil, _, _ => True
@@ -46,9 +46,9 @@ theorem LayN_congr' (T T' : Array PNode) : ∀ (d : DNode) (idx base : Nat),
   | .group i ds, idx, base, h, hl => by
     simp only [LayN, descT] at hl h ⊢
     rw [(h idx (Or.inl rfl)).1, (h idx (Or.inl rfl)).2.1, (h idx (Or.inl rfl)).2.2]
-    refine ⟨hl.1, hl.2.1, hl.2.2.1, hl.2.2.2.1, ?_⟩
+    refine ⟨hl.1, hl.2.1, hl.2.2.1, ?_⟩
     have := descL_eq ds
-    exact LayL_congr' T T' ds base (base + ds.length) (fun j hj => h j (by omega)) hl.2.2.2.2
+    exact LayL_congr' T T' ds base (base + ds.length) (fun j hj => h j (by omega)) hl.2.2.2
 theorem LayL_congr' (T T' : Array PNode) : ∀ (ds : DList) (k base : Nat),
     (∀ j, (k ≤ j ∧ j < k + ds.length) ∨ (base ≤ j ∧ j < base + descS ds) → SameShape T'[j]! T[j]!) →
     LayL T ds k base → LayL T' ds k base
@@ -142,7 +142,7 @@ theorem flatNode_lay (sc : Nat) : ∀ (d : DNode) (idx : Nat) (s : FlatSt), idx 
     refine ⟨?_, fun j hj hne => ?_⟩
     · simp only [LayN]
       rw [hidx]
-      exact ⟨hk, by simp; omega, by simp; omega, hi, ih.1⟩
+      exact ⟨hk, by simp; omega, fun _ => ⟨by simp; omega, hi⟩, ih.1⟩
     · rw [ih.2 j (by omega) (by omega), modify_get_ne _ _ _ _ (by omega), hp.1 j hj (by omega)]
 theorem flatList_lay (sc : Nat) : ∀ (ds : DList) (k : Nat) (s : FlatSt), k + ds.length ≤ s.T.size →
     KindsAt s.T ds k →
